@@ -706,3 +706,251 @@ func init() {
 			return out
 		}})
 }
+
+// OUTLEVEL — the working level an operation computes is applied to its output.
+//
+// Operations compute their working level as the minimum of the levels of their operands and of the receiver
+// (`level := utils.Min(ctIn.Level(), opOut.Level())`, or the level returned by InitOutputBinaryOp/UnaryOp for
+// opOut.El()) and run every ring operation at that level. The output must then be cut to that level
+// (`opOut.Resize(degree, level)`): otherwise it keeps its higher level while only the lower limbs were written, its
+// upper limbs hold stale data, and decryption at the recorded level returns garbage. The rule demands, for every such
+// level definition, a Resize call on one of the elements whose level enters the definition, with a level argument
+// that mentions the defined variable.
+func scanOutLevel(c *core.Ctx) []ob {
+	var out []ob
+	n := 0
+	c.FuncDecls(func(pk *packages.Package, file *ast.File, fd *ast.FuncDecl) {
+		rel := core.ShortPkg(pk.PkgPath)
+		if fd.Body == nil || fileIsTestSupport(c.Program, fd.Pos()) || !(c.IsFixture || strings.HasPrefix(rel, "schemes/") || strings.HasPrefix(rel, "core/") || strings.HasPrefix(rel, "circuits/") || strings.HasPrefix(rel, "multiparty")) {
+			return
+		}
+		info := pk.TypesInfo
+		fkey := core.FuncKey(pk, fd)
+		// level definitions
+		type ldef struct {
+			obj   types.Object
+			elems map[string]bool // textual bases of the elements whose Level() enters
+			viaInit bool
+			pos   token.Pos
+		}
+		var defs []ldef
+		levelBases := func(e ast.Expr) map[string]bool {
+			res := map[string]bool{}
+			ast.Inspect(e, func(x ast.Node) bool {
+				if call, ok := x.(*ast.CallExpr); ok && len(call.Args) == 0 {
+					if sel, ok := unparen(call.Fun).(*ast.SelectorExpr); ok && sel.Sel.Name == "Level" {
+						if t := info.TypeOf(sel.X); t != nil && isMetaCarrier(t) {
+							res[exprString(sel.X)] = true
+						}
+					}
+				}
+				return true
+			})
+			return res
+		}
+		ast.Inspect(fd.Body, func(x ast.Node) bool {
+			as, ok := x.(*ast.AssignStmt)
+			if !ok {
+				return true
+			}
+			if len(as.Lhs) == len(as.Rhs) {
+				for i, l := range as.Lhs {
+					id, ok := l.(*ast.Ident)
+					if !ok || !strings.HasPrefix(strings.ToLower(id.Name), "level") || strings.HasPrefix(strings.ToLower(id.Name), "levelp") {
+						continue
+					}
+					call, ok := unparen(as.Rhs[i]).(*ast.CallExpr)
+					if !ok || calleeName(info, call) != "Min" {
+						continue
+					}
+					bs := levelBases(call)
+					if len(bs) < 2 {
+						continue
+					}
+					o := info.Defs[id]
+					if o == nil {
+						o = info.Uses[id]
+					}
+					defs = append(defs, ldef{o, bs, false, as.Pos()})
+				}
+			} else if len(as.Rhs) == 1 && len(as.Lhs) == 3 {
+				call, ok := unparen(as.Rhs[0]).(*ast.CallExpr)
+				if !ok || !strings.HasPrefix(calleeName(info, call), "InitOutput") || len(call.Args) == 0 {
+					return true
+				}
+				id, ok := as.Lhs[1].(*ast.Ident)
+				if !ok || id.Name == "_" {
+					return true
+				}
+				o := info.Defs[id]
+				if o == nil {
+					o = info.Uses[id]
+				}
+				last := unparen(call.Args[len(call.Args)-1])
+				if c2, ok := last.(*ast.CallExpr); ok {
+					if sel, ok := unparen(c2.Fun).(*ast.SelectorExpr); ok && sel.Sel.Name == "El" {
+						last = sel.X
+					}
+				}
+				defs = append(defs, ldef{o, map[string]bool{exprString(last): true}, true, as.Pos()})
+			}
+			return true
+		})
+		if strings.HasPrefix(fd.Name.Name, "InitOutput") {
+			return
+		}
+		paramNames := map[string]bool{}
+		if fd.Type.Params != nil {
+			for _, f := range fd.Type.Params.List {
+				for _, nm := range f.Names {
+					paramNames[nm.Name] = true
+				}
+			}
+		}
+		isEncryptor := strings.Contains(core.RecvTypeName(fd), "Encryptor")
+		for _, d := range defs {
+			if d.obj == nil {
+				continue
+			}
+			// one of the elements must be an output of the function
+			outElem := ""
+			for e := range d.elems {
+				root := e
+				if i := strings.IndexAny(root, ".[("); i > 0 {
+					root = root[:i]
+				}
+				if (paramNames[root] && isOutParamName(root)) || (isEncryptor && root == "ct") {
+					outElem = e
+				}
+			}
+			if outElem == "" {
+				continue
+			}
+			n++
+			found := ""
+			// delegation: the output is handed to another module function after the level was computed, in the
+			// same block / switch case as the definition
+			var scope ast.Node = fd.Body
+			{
+				pm := parentMapCached(fd)
+				var defNode ast.Node
+				ast.Inspect(fd.Body, func(x ast.Node) bool {
+					if as, ok := x.(*ast.AssignStmt); ok && as.Pos() == d.pos {
+						defNode = as
+					}
+					return defNode == nil
+				})
+				for p := pm[defNode]; p != nil; p = pm[p] {
+					if _, ok := p.(*ast.CaseClause); ok {
+						scope = p
+						break
+					}
+					if _, ok := p.(*ast.BlockStmt); ok {
+						scope = p
+						break
+					}
+				}
+			}
+			ast.Inspect(scope, func(x ast.Node) bool {
+				call, ok := x.(*ast.CallExpr)
+				if !ok || found != "" || call.Pos() < d.pos {
+					return true
+				}
+				f := calleeFunc(info, call)
+				if f == nil || f.Pkg() == nil || !strings.HasPrefix(f.Pkg().Path(), core.ModPath) || strings.HasPrefix(f.Name(), "InitOutput") {
+					return true
+				}
+				fsig, _ := f.Type().(*types.Signature)
+				asOut, asIn := false, false
+				for i, a := range call.Args {
+					at := exprString(unparen(a))
+					if at == outElem || at == outElem+".El()" {
+						if fsig != nil && i < fsig.Params().Len() && isOutParamName(fsig.Params().At(i).Name()) {
+							asOut = true
+						} else {
+							asIn = true
+						}
+					}
+				}
+				// in-place calls (the output is also an input of the callee) keep the output's own level
+				if asOut && !asIn {
+					found = "delegated to " + f.Name() + " at " + c.Rel(call.Pos())
+				}
+				return true
+			})
+			ast.Inspect(fd.Body, func(x ast.Node) bool {
+				call, ok := x.(*ast.CallExpr)
+				if !ok || found != "" || len(call.Args) == 0 {
+					return true
+				}
+				sel, ok := unparen(call.Fun).(*ast.SelectorExpr)
+				if !ok || sel.Sel.Name != "Resize" {
+					return true
+				}
+				base := unparen(sel.X)
+				if c2, ok := base.(*ast.CallExpr); ok {
+					if s2, ok := unparen(c2.Fun).(*ast.SelectorExpr); ok && s2.Sel.Name == "El" {
+						base = s2.X
+					}
+				}
+				// through Value: shareOut.Value.Resize(levelQ)
+				bt := exprString(base)
+				okBase := d.elems[bt]
+				for e := range d.elems {
+					if strings.HasPrefix(bt, e+".") {
+						okBase = true
+					}
+				}
+				if !okBase {
+					return true
+				}
+				mentions := false
+				ast.Inspect(call.Args[len(call.Args)-1], func(y ast.Node) bool {
+					if id, ok := y.(*ast.Ident); ok && info.Uses[id] == d.obj {
+						mentions = true
+					}
+					return true
+				})
+				if mentions {
+					found = c.Rel(call.Pos())
+				}
+				return true
+			})
+			key := fmt.Sprintf("OUTLEVEL:%s#%s@%s", fkey, d.obj.Name(), strings.Join(sortedKeys(d.elems), ","))
+			props := metaProps(fkey)
+			if strings.Contains(fkey, "Encryptor") {
+				props = []string{"C03"}
+			}
+			if strings.HasPrefix(fkey, "multiparty") {
+				props = []string{"C16"}
+			}
+			if found != "" {
+				if strings.HasPrefix(found, "delegated") {
+					out = append(out, withProps(okOb("OUTLEVEL", key, c.Rel(d.pos), found, true), props...))
+				} else {
+					out = append(out, withProps(okOb("OUTLEVEL", key, c.Rel(d.pos), "the element is resized to the working level at "+found, true), props...))
+				}
+			} else {
+				out = append(out, withProps(violOb("OUTLEVEL", key, c.Rel(d.pos), fmt.Sprintf("%s computes the working level %s from the levels of %s at %s but never resizes any of them to it: the output keeps its previous level while only the limbs up to %s are written", fkey, d.obj.Name(), strings.Join(sortedKeys(d.elems), ", "), c.Rel(d.pos), d.obj.Name())), props...))
+			}
+		}
+	})
+	c.Stats["outlevel_defs"] = n
+	return out
+}
+
+func init() {
+	all := []string{"C03", "C04", "C05", "C06", "C11", "C12", "C13", "C16", "C20"}
+	core.Register(&core.Rule{Name: "OUTLEVEL", Props: all,
+		Doc: "a working level defined as the minimum of element levels (or returned by InitOutput*Op for the output) is applied by a Resize(…, level) call to one of those elements",
+		Run: func(c *core.Ctx) []ob {
+			out := scanOutLevel(c)
+			for _, o := range core.Floor("OUTLEVEL", nil, "working-level definitions", c.Stats["outlevel_defs"], 40) {
+				out = append(out, withProps(o, all...))
+			}
+			for _, o := range control(c, "OUTLEVEL", scanOutLevel, "(fixEvaluator).AddAt") {
+				out = append(out, withProps(o, all...))
+			}
+			return out
+		}})
+}
